@@ -93,6 +93,9 @@ def eff_key_guess(f, ra):
     if f["rename"] is not None:
         cands.append(f["rename"])
         cands.append(f["rename"].upper())
+    # matching is exact: a key that only differs by surrounding white space is another key
+    base = f["rename"] if f["rename"] is not None else ident
+    cands += [" " + base, base + " ", "\t" + camel(ident)]
     return cands
 
 
@@ -234,7 +237,7 @@ class PayloadGen:
             names = []
             for v in d["variants"]:
                 i = G.unraw(v["ident"])
-                names += [i, camel(i), i.lower(), i.upper(), transposed(i), transposed(i.lower()), i + "s"]
+                names += [i, camel(i), i.lower(), i.upper(), transposed(i), transposed(i.lower()), i + "s", " " + i, i.lower() + " "]
                 if v["rename"] is not None: names.append(v["rename"])
             if r.random() < p * 0.3: return self.wrong({"str"})
             return vstr(r.choice(names + ["", "nope"]))
@@ -243,7 +246,7 @@ class PayloadGen:
         i = G.unraw(v["ident"])
         # plausible names of the variant; which one is the effective name is the specification's business
         names = [i, camel(i), i.lower()] + ([v["rename"]] * 3 if v["rename"] is not None else [i])
-        tagv = vstr(r.choice(names)) if r.random() >= p * 0.5 else r.choice([vint(1), vnull(), vstr("nope"), vstr(i.upper()), vseq([])])
+        tagv = vstr(r.choice(names)) if r.random() >= p * 0.5 else r.choice([vint(1), vnull(), vstr("nope"), vstr(i.upper()), vseq([]), vstr(" " + i), vstr(i + " ")])
         ms = self.fields_members(v["fields"] or [], v["rename_all"], p, depth, d["deny"])
         if r.random() >= p * 0.3:
             ms.append((d["tag"], tagv))
